@@ -289,4 +289,63 @@ theorem pagesOk_of_wf {lock : Nat} {f : Ltx} (h : f.wf lock = true) : PagesOk lo
     intro hm
     exact (hall lock hm).2 rfl
 
+
+/-! ### more list facts: keys/lookup, `sortU` is strictly ascending -/
+
+theorem mem_keys_lookup {l : List (Nat × Tok)} {p : Nat} (h : p ∈ l.map (·.1)) : ∃ t, l.lookup p = some t := by
+  induction l with
+  | nil => simp at h
+  | cons x xs ih =>
+    obtain ⟨a, b⟩ := x
+    simp only [List.lookup_cons]
+    by_cases hpa : p = a
+    · subst hpa; exact ⟨b, by simp⟩
+    · have : (p == a) = false := by simp [hpa]
+      rw [this]
+      simp only [List.map_cons, List.mem_cons] at h
+      rcases h with h | h
+      · exact absurd h hpa
+      · exact ih h
+
+theorem pairwise_insertU {k : Nat} {l : List Nat} (h : l.Pairwise (· < ·)) : (insertU k l).Pairwise (· < ·) := by
+  induction l with
+  | nil => simp [insertU]
+  | cons x xs ih =>
+    unfold insertU
+    rw [List.pairwise_cons] at h
+    split
+    · rename_i hkx
+      rw [List.pairwise_cons]
+      refine ⟨?_, List.pairwise_cons.mpr h⟩
+      intro a ha
+      simp only [List.mem_cons] at ha
+      rcases ha with ha | ha
+      · omega
+      · have := h.1 a ha; omega
+    · split
+      · exact List.pairwise_cons.mpr h
+      · rename_i h1 h2
+        rw [List.pairwise_cons]
+        refine ⟨?_, ih h.2⟩
+        intro a ha
+        rw [mem_insertU] at ha
+        rcases ha with ha | ha
+        · omega
+        · exact h.1 a ha
+
+theorem pairwise_sortU (l : List Nat) : (sortU l).Pairwise (· < ·) := by
+  induction l with
+  | nil => simp [sortU]
+  | cons x xs ih => exact pairwise_insertU ih
+
+theorem ascending_of_pairwise : ∀ {l : List Nat}, l.Pairwise (· < ·) → ascending l = true
+  | [], _ => rfl
+  | [_], _ => rfl
+  | a :: b :: t, h => by
+    rw [List.pairwise_cons] at h
+    unfold ascending
+    simp only [Bool.and_eq_true, decide_eq_true_eq]
+    exact ⟨h.1 b (by simp), ascending_of_pairwise h.2⟩
+
+
 end Litestream
